@@ -671,6 +671,15 @@ func (pr *Prog) ArityOK() bool {
 
 // InFragment mirrors Spec.Ctl.inFragment (checked against the driver's answer).
 func (pr *Prog) InFragment() bool {
+	for _, f := range pr.Funs {
+		seen := map[int]bool{}
+		for _, p := range f.Params {
+			if seen[p.X] {
+				return false
+			}
+			seen[p.X] = true
+		}
+	}
 	return !pr.MultiLevel() && !pr.ImplicitReturn() && pr.ArityOK()
 }
 
